@@ -213,8 +213,15 @@ def link_harness(meta, outdir, h=None):
         r = run(s0)
         if r.returncode != 0:
             return None, "link step failed: %s\n%s" % (" ".join(s0[:3]), r.stdout[-2000:])
-    if h is not None and h.get("cutfmt") == "1":
-        e = cut_functions(o, CUT_FMT)
+    if h is not None and h.get("cutfmt"):
+        rx = CUT_FMT.pattern
+        lvl = h["cutfmt"]
+        if lvl in ("char", "none"):
+            # the only formatting this harness can legitimately reach is `{}` of a char / str
+            rx += r"|Num as std::fmt::Display|BigNum as std::fmt::Display|String as std::fmt::Display|Arguments<'_> as std::fmt::Display|fmt::num::imp|std::fmt::FromFn|core::str::count::|Formatter::<'_>::padding|PostPadding"
+        if lvl == "num":
+            rx += r"|Arguments<'_> as std::fmt::Display|fmt::num::imp|std::fmt::FromFn|core::str::count::|Formatter::<'_>::padding|PostPadding"
+        e = cut_functions(o, re.compile(rx))
         if e:
             return None, e
     steps = [
@@ -432,7 +439,7 @@ def verify_one(h, table, outdir):
         res["verdict"] = "FAILURE"
         f0 = fails[0]
         res["failed_property"] = f0.get("property")
-        res["failed_desc"] = f0.get("description")
+        res["failed_desc"] = "%s [in %s]" % (f0.get("description"), (f0.get("sourceLocation") or {}).get("function", f0.get("property")))
         res["failed_loc"] = "%s:%s" % ((f0.get("sourceLocation") or {}).get("file", "?"),
                                        (f0.get("sourceLocation") or {}).get("line", "?"))
         res["n_failed"] = len(fails)
@@ -720,6 +727,12 @@ def main():
                 if h.get("replay") == "none":
                     reproduced = True   # harness compares against a model only; documented per harness
                     r["replay"]["note"] = "not natively replayable (stubbed environment); reported on the solver's verdict"
+                if not reproduced and h["kind"] == "stretch":
+                    # stretch harness at the edge of the engine's reach: a failure that does not replay
+                    # (typically CBMC's handling of allocations whose size became symbolic) is "not covered"
+                    inconcl.append(r["name"])
+                    r["detail"] = "solver failure without a native reproduction: treated as not covered"
+                    continue
                 if not reproduced and h.get("replay") == "optional":
                     # harness over an over-approximating contract model: a counterexample that needs a
                     # model behaviour the real lower level never shows is not a violation of the real system
